@@ -44,6 +44,9 @@ StakeMap(st) == [k \in {s.tx : s \in RangeS(st.stakes)} |->
                   LET s == CHOOSE s \in RangeS(st.stakes) : s.tx = k IN [pk |-> s.pk, start |-> s.start, end |-> s.end, syms |-> s.syms]]
 HistMap(st) == [h \in {x[1] : x \in RangeS(st.hist)} |-> (CHOOSE x \in RangeS(st.hist) : x[1] = h)[2]]
 
+SeqOfCoinMap(cm) == LET ids == SetToSeq(DOMAIN cm) IN
+    [i \in DOMAIN ids |-> [id |-> ids[i], cov |-> cm[ids[i]].cov, val |-> cm[ids[i]].val, denom |-> cm[ids[i]].denom, data |-> cm[ids[i]].data, h |-> cm[ids[i]].h]]
+
 \* ---- transactions ------------------------------------------------------------------
 OutDenom(tx, o) == IF o.denom = "NEW" THEN "C:" \o tx.id ELSE o.denom
 CreatedIdx(tx) == {j \in DOMAIN tx.outs : tx.outs[j].cov # DESTROY_COV}
